@@ -892,6 +892,56 @@ def gen_wild_workbook(rng):
     return wb
 
 
+def padded_workbooks():
+    """directed: rows whose second/third edge columns hold blank padding cells (a CSV sheet is
+    rectangular), for every row type that does not create a node.  What the tool does with the
+    padding depends on the tree (FlowParser._parse_next_row since /repo a05766f drops it at read;
+    before, go_to / no_op / exit / block rows applied it to the preceding row); the model follows the
+    regenerated probe `padding_edges_dropped_at_read`.  -> [(label, workbook)]"""
+    def base():
+        return [row("send_message", id="a1", edges=[edge("start")], main="hi", width=3),
+                row("wait_for_response", id="w", edges=[edge("")], width=3),
+                row("send_message", id="a2", edges=[edge("w", val="yes", name="Yes")], main="good", width=3),
+                row("send_message", id="a3", edges=[edge("w", val="no")], main="bad", width=3)]
+
+    def wb(rows):
+        return dict(sheets=[("content_index", ("index", [ixrow("create_flow", ["pflow"])])), ("pflow", ("flow", rows))], dm=None)
+
+    out = []
+    # the go_to row of Io/CliExamples.v (goto_padding_follows_the_tree): two sources, one padding cell
+    for n in (1, 2, 3, 4):
+        out.append((f"go_to 2 sources + 1 padding cell, {n} destination(s)",
+                    wb(base() + [row("go_to", edges=[edge("a2"), edge("a3"), edge()], lst=["a1"] * n, width=3)])))
+    out.append(("go_to 1 source + 2 padding cells, 1 destination",
+                wb(base() + [row("go_to", edges=[edge("a2")], lst=["a1"], width=3)])))
+    out.append(("go_to 1 source + 2 padding cells, 3 destinations",
+                wb(base() + [row("go_to", edges=[edge("a2")], lst=["a1"] * 3, width=3)])))
+    for t in ("no_op", "hard_exit", "loose_exit"):
+        out.append((f"{t} 1 source + 2 padding cells, then a row from a3",
+                    wb(base() + [row(t, id="x" if t == "no_op" else "", edges=[edge("a2")], width=3),
+                                 row("send_message", id="a4", edges=[edge("a3")], main="after", width=3)])))
+        out.append((f"{t} blank first edge + 2 padding cells",
+                    wb(base() + [row(t, id="x" if t == "no_op" else "", edges=[edge("")], width=3)])))
+    for head, tail in (("begin_block", "end_block"), ("begin_for", "end_for")):
+        kw = dict(lst=["p", "q"], vars=["x"]) if head == "begin_for" else {}
+        out.append((f"{head} 1 source + 2 padding cells",
+                    wb(base() + [row(head, id="B", edges=[edge("a2")], width=3, **kw),
+                                 row("send_message", id="in1", edges=[edge("")], main="inside", width=3),
+                                 row(tail, width=3),
+                                 row("send_message", id="a4", edges=[edge("a3")], main="after", width=3)])))
+        out.append((f"{head} from start + 2 padding cells (is_starting_row looks at the edges read)",
+                    wb([row(head, id="B", edges=[edge("start")], width=3, **kw),
+                        row("send_message", id="in1", edges=[edge("")], main="inside", width=3),
+                        row(tail, width=3)])))
+    # a node row: padding was always skipped there, on every tree
+    out.append(("send_message 1 source + 2 padding cells",
+                wb(base() + [row("send_message", id="a4", edges=[edge("a2")], main="after", width=3)])))
+    # a first edge that is trivial is kept on every tree
+    out.append(("go_to trivial first edge + 1 source + 1 padding cell, 2 destinations",
+                wb(base() + [row("go_to", edges=[edge(""), edge("a2"), edge()], lst=["a1", "a1"], width=3)])))
+    return out
+
+
 # ------------------------------------------------------------------ fault injection
 def flow_sheets(wb):
     return [(i, n, s[1]) for i, (n, s) in enumerate(wb["sheets"]) if s[0] == "flow"]
